@@ -132,11 +132,23 @@ func (g *gen) plainTokens(n int) []*inl {
 		if i > 0 {
 			out = append(out, &inl{k: iSpace})
 		}
-		pick := g.r.Intn(12)
-		if (pick == 0 && g.no("inline:escape")) || (pick == 1 && g.no("inline:entity")) {
+		pick := g.r.Intn(14)
+		if ((pick == 0 || pick == 12) && g.no("inline:escape")) || ((pick == 1 || pick == 13) && g.no("inline:entity")) {
 			pick = 5
 		}
+		if pick == 12 && g.no("inline:escape-alone") {
+			pick = 0
+		}
 		switch pick {
+		case 12:
+			// an escaped character standing alone (at the start of a line it keeps a block rule from applying)
+			c := escapable[g.r.Intn(len(escapable))]
+			out = append(out, &inl{k: iEsc, s: string(c)})
+			g.f("inline:escape-alone")
+		case 13:
+			e := entities[g.r.Intn(len(entities))]
+			out = append(out, &inl{k: iEntity, s: e[0], dec: e[1]})
+			g.f("inline:entity")
 		case 0:
 			c := escapable[g.r.Intn(len(escapable))]
 			out = append(out, g.word(), &inl{k: iEsc, s: string(c)})
